@@ -516,7 +516,11 @@ def divide_outputs(
                     mailboxes[d].send(result[d])
             except Exception as e:
                 # Inform the source we're going down
-                source.throw(e)
+                try:
+                    source.throw(e)
+                except StopIteration:
+                    # The source handled the exception and finished
+                    pass
                 raise
             i += 1
 
